@@ -124,9 +124,20 @@ func init() {
 				w.Fail("C17", "TotalLocked failed: %v", err)
 				return
 			}
-			locked := tl.Amount.Amount.BigInt()
-			if tl.Amount.Denom != denom && locked.Sign() != 0 {
+			if tl.Amount.Denom != denom && tl.Amount.Amount.Sign() != 0 {
 				return // books kept in another denomination after a governance change: C14's subject
+			}
+			// "the total locked eFUND" is taken from the per-account records (what the accounts really hold locked), not from
+			// the module's running total or the escrow balance - the three agree while the books balance (C04), and a
+			// supply figure computed from a counter that has drifted is a wrong supply figure
+			locked := new(big.Int)
+			for _, l := range w.C.App.EnterpriseKeeper.GetAllLockedUnds(ctx) {
+				if l.Amount.Denom == denom {
+					locked.Add(locked, l.Amount.Amount.BigInt())
+				}
+			}
+			if locked.Cmp(tl.Amount.Amount.BigInt()) != 0 {
+				w.Class("c17.total-locked-query-differs-from-sum-of-accounts")
 			}
 			want := func(d string) *big.Int {
 				v := new(big.Int).Set(bank[d])
